@@ -410,6 +410,11 @@ SchedSat(R, b, act, rep, fuel) ==
 \* Each returns [rows, ok].
 CmdIns(R, c) == [rows |-> Canonize(EvalG(R, c.t)[1]), ok |-> TRUE]
 
+\* bulk insertion (C02 data sets): c.items is a sequence of ground terms
+RECURSIVE LoadAll(_, _, _)
+LoadAll(R, items, k) == IF k > Len(items) THEN R ELSE LoadAll(EvalG(R, items[k])[1], items, k + 1)
+CmdLoad(R, c) == [rows |-> Canonize(LoadAll(R, c.items, 1)), ok |-> TRUE]
+
 CmdUnion(R, c) ==
   LET e1 == EvalG(R, c.a)
       e2 == EvalG(e1[1], c.b)
